@@ -88,9 +88,12 @@ class BundleContainer(object):
             pri.create_ts.getfieldval('seqno')
         ]
         if pri.bundle_flags & PrimaryBlock.Flag.IS_FRAGMENT:
+            # a fragment is identified by its own offset and payload length
+            pyld_blk = self._block_num.get(Bundle.BLOCK_NUM_PAYLOAD)
+            pyld_data = pyld_blk.getfieldval('btsd') if pyld_blk is not None else None
             ident += [
                 pri.fragment_offset,
-                pri.total_app_data_len,
+                len(pyld_data) if pyld_data is not None else 0,
             ]
         return tuple(ident)
 
